@@ -2,4 +2,452 @@
 import KB.Backend
 import KB.Lemmas.Coder
 namespace KB
+open Generated
+
+/-! ### `get` after `put` / `erase` without any sortedness assumption
+
+`put`, `erase` and `get` all walk the list the same way (`cmp key k = .gt` → go on), and `cmp` is a
+total order, so the usual map laws for *other* keys hold for `put` on every list, and for `erase`
+whenever the looked-up key is present. -/
+
+theorem Store.get_put_self_any (s : Store) (k v : Bytes) : (s.put k v).get k = some v := by
+  induction s with
+  | nil => simp [Store.put, Store.get]
+  | cons x rest ih =>
+    obtain ⟨k0, v0⟩ := x
+    cases hc : cmp k k0 <;> simp [Store.put, Store.get, hc, ih]
+
+theorem Store.get_put_ne_any (s : Store) (k k' v : Bytes) (h : k' ≠ k) :
+    (s.put k v).get k' = s.get k' := by
+  have hne : cmp k' k ≠ .eq := fun hc => h (cmp_eq_iff.1 hc)
+  induction s with
+  | nil =>
+    simp only [Store.put, Store.get]
+    cases hc : cmp k' k with
+    | lt => rfl
+    | eq => exact absurd hc hne
+    | gt => rfl
+  | cons x rest ih =>
+    obtain ⟨k0, v0⟩ := x
+    cases hc : cmp k k0 with
+    | lt =>
+      simp only [Store.put, hc]
+      cases hc' : cmp k' k with
+      | lt =>
+        have := cmp_lt_trans hc' hc
+        simp [Store.get, hc', this]
+      | eq => exact absurd hc' hne
+      | gt => simp [Store.get, hc']
+    | eq =>
+      have hk : k = k0 := cmp_eq_iff.1 hc
+      subst hk
+      simp only [Store.put, hc, Store.get]
+      cases hc' : cmp k' k with
+      | lt => rfl
+      | eq => exact absurd hc' hne
+      | gt => rfl
+    | gt =>
+      simp only [Store.put, hc, Store.get, ih]
+
+theorem Store.get_erase_of_some (s : Store) (k k' v : Bytes) (h : k' ≠ k)
+    (hg : s.get k' = some v) : (s.erase k).get k' = some v := by
+  have hne : cmp k' k ≠ .eq := fun hc => h (cmp_eq_iff.1 hc)
+  induction s with
+  | nil => simp [Store.get] at hg
+  | cons x rest ih =>
+    obtain ⟨k0, v0⟩ := x
+    cases hc : cmp k k0 with
+    | lt => simpa only [Store.erase, hc] using hg
+    | eq =>
+      have hk : k = k0 := cmp_eq_iff.1 hc
+      subst hk
+      simp only [Store.erase, hc]
+      simp only [Store.get] at hg
+      cases hc' : cmp k' k with
+      | lt => simp [hc'] at hg
+      | eq => exact absurd hc' hne
+      | gt => simpa [hc'] using hg
+    | gt =>
+      simp only [Store.erase, hc]
+      simp only [Store.get] at hg ⊢
+      cases hc' : cmp k' k0 with
+      | lt => simp [hc'] at hg
+      | eq => simpa [hc'] using hg
+      | gt =>
+        simp only [hc'] at hg ⊢
+        exact ih hg
+
+/-! ### the compaction key is not an object key -/
+
+theorem compactKey_byte (c : Cfg) :
+    (compactKeyOf c)[(compactKeyOf c).length - 9]? = some 109 := by
+  have hl : (compactKeyOf c).length - 9 = c.pfx.length + 3 := by
+    simp [compactKeyOf, compactKeyName]
+  rw [hl]
+  simp [compactKeyOf, compactKeyName]
+
+theorem decode_compactKey (c : Cfg) (k : Bytes) (r : Nat) : decode (compactKeyOf c) ≠ .ok k r := by
+  have hb := compactKey_byte c
+  unfold decode
+  rw [List.getD_eq_getElem?_getD, hb]
+  simp only [splitByte, Option.getD_some]
+  repeat' split
+  all_goals simp_all
+
+theorem compactKey_ne_encode (c : Cfg) (k : Bytes) (r : Nat) : encode k r ≠ compactKeyOf c := by
+  intro h
+  have := congrArg (fun l => l.reverse[8]?) h
+  simp [compactKeyOf, compactKeyName, encode, be64, beN, splitByte] at this
+
+theorem ne_compactKey_of_decode {c : Cfg} {ik k : Bytes} {r : Nat} (h : decode ik = .ok k r) :
+    ik ≠ compactKeyOf c := by
+  intro e
+  rw [e] at h
+  exact decode_compactKey c k r h
+
+/-! ### writes only `put` under encoded keys -/
+
+def BOp.putsAway (k0 : Bytes) : BOp → Prop
+  | .pine k _ => k ≠ k0
+  | .cas k _ _ => k ≠ k0
+  | .put k _ => k ≠ k0
+  | _ => False
+
+theorem applyOp_keeps_get {q : Quirks} {s s' : Store} {idx : Nat} {op : BOp} {k0 : Bytes}
+    (hop : op.putsAway k0) (h : applyOp q s idx op = .ok s') : s'.get k0 = s.get k0 := by
+  cases op with
+  | pine k v =>
+    simp only [applyOp] at h
+    cases hg : s.get k with
+    | some old => simp [hg] at h
+    | none =>
+      simp only [hg, Except.ok.injEq] at h
+      subst h
+      exact Store.get_put_ne_any _ _ _ _ (Ne.symm hop)
+  | cas k new old =>
+    simp only [applyOp] at h
+    cases hg : s.get k with
+    | none => simp only [hg] at h; split at h <;> simp at h
+    | some cur =>
+      simp only [hg] at h
+      split at h
+      · simp only [Except.ok.injEq] at h
+        subst h
+        exact Store.get_put_ne_any _ _ _ _ (Ne.symm hop)
+      · simp at h
+  | put k v =>
+    simp only [applyOp, Except.ok.injEq] at h
+    subst h
+    exact Store.get_put_ne_any _ _ _ _ (Ne.symm hop)
+  | del k => exact hop.elim
+  | delcur k v => exact hop.elim
+
+theorem applyOps_keeps_get {q : Quirks} {k0 : Bytes} (ops : List BOp) (hops : ∀ op ∈ ops, op.putsAway k0)
+    (s s' : Store) (idx : Nat) (h : applyOps q s idx ops = .ok s') : s'.get k0 = s.get k0 := by
+  induction ops generalizing s idx with
+  | nil => simp only [applyOps, Except.ok.injEq] at h; subst h; rfl
+  | cons op ops ih =>
+    simp only [applyOps] at h
+    cases ha : applyOp q s idx op with
+    | error e => simp [ha] at h
+    | ok s1 =>
+      simp only [ha] at h
+      rw [ih (fun o ho => hops o (List.mem_cons_of_mem _ ho)) s1 (idx + 1) h]
+      exact applyOp_keeps_get (hops op (List.mem_cons_self ..)) ha
+
+theorem doCommit_keeps_get (c : Cfg) {k0 : Bytes} (ops : List BOp) (hops : ∀ op ∈ ops, op.putsAway k0)
+    (st : Store) (f : Fault) : (doCommit c st ops f).2.get k0 = st.get k0 := by
+  unfold doCommit
+  cases hcm : commit c.q st ops with
+  | error e => cases e <;> rfl
+  | ok st' =>
+    have := applyOps_keeps_get ops hops st st' 0 hcm
+    cases f <;> simp [this]
+
+theorem creatorCreate_keeps_get (c : Cfg) (st : Store) (key val : Bytes) (rev : Nat) (fs : List Fault) :
+    (creatorCreate c st key val rev fs).2.1.get (compactKeyOf c) = st.get (compactKeyOf c) := by
+  have h1 : ∀ (f : Fault) (st : Store),
+      (doCommit c st [BOp.pine (idxKey key) (be8 rev), BOp.put (encode key rev) val] f).2.get (compactKeyOf c)
+        = st.get (compactKeyOf c) := fun f st =>
+    doCommit_keeps_get c _ (by
+      intro op hop
+      simp only [List.mem_cons, List.mem_nil_iff, or_false] at hop
+      rcases hop with rfl | rfl
+      · exact compactKey_ne_encode c key 0
+      · exact compactKey_ne_encode c key rev) st f
+  have h2 : ∀ (f : Fault) (st : Store) (old : Bytes),
+      (doCommit c st [BOp.cas (idxKey key) (be8 rev) old, BOp.put (encode key rev) val] f).2.get (compactKeyOf c)
+        = st.get (compactKeyOf c) := fun f st old =>
+    doCommit_keeps_get c _ (by
+      intro op hop
+      simp only [List.mem_cons, List.mem_nil_iff, or_false] at hop
+      rcases hop with rfl | rfl
+      · exact compactKey_ne_encode c key 0
+      · exact compactKey_ne_encode c key rev) st f
+  unfold creatorCreate
+  simp only []
+  repeat' split
+  all_goals simp only [h1, h2]
+
+theorem sequence_store' (s : BState) (w : WEvent) : (sequence s w).store = s.store := by
+  unfold sequence; split <;> rfl
+
+theorem floorOf_congr (c : Cfg) {st st' : Store} (h : st'.get (compactKeyOf c) = st.get (compactKeyOf c)) :
+    floorOf c st' = floorOf c st := by
+  unfold floorOf; rw [h]
+
+theorem cas_put_keeps_get (c : Cfg) (st : Store) (key new old val : Bytes) (rev : Nat) (f : Fault) :
+    (doCommit c st [BOp.cas (idxKey key) new old, BOp.put (encode key rev) val] f).2.get (compactKeyOf c)
+      = st.get (compactKeyOf c) :=
+  doCommit_keeps_get c _ (by
+    intro op hop
+    simp only [List.mem_cons, List.mem_nil_iff, or_false] at hop
+    rcases hop with rfl | rfl
+    · exact compactKey_ne_encode c key 0
+    · exact compactKey_ne_encode c key rev) st f
+
+theorem doCreate_keeps_get (c : Cfg) (s : BState) (k v : Bytes) (fs : List Fault) :
+    (doCreate c s k v fs).2.store.get (compactKeyOf c) = s.store.get (compactKeyOf c) := by
+  unfold doCreate
+  simp only []
+  repeat' split
+  all_goals simp only [sequence_store', creatorCreate_keeps_get]
+
+theorem doUpdate_keeps_get (c : Cfg) (s : BState) (k v : Bytes) (e : Nat) (fs : List Fault) :
+    (doUpdate c s k v e fs).2.store.get (compactKeyOf c) = s.store.get (compactKeyOf c) := by
+  unfold doUpdate
+  simp only []
+  repeat' split
+  all_goals simp only [sequence_store', creatorCreate_keeps_get, cas_put_keeps_get]
+
+theorem doDelete_keeps_get (c : Cfg) (s : BState) (k : Bytes) (e : Nat) (fs : List Fault) :
+    (doDelete c s k e fs).2.store.get (compactKeyOf c) = s.store.get (compactKeyOf c) := by
+  unfold doDelete
+  simp only []
+  repeat' split
+  all_goals simp only [sequence_store', cas_put_keeps_get]
+
+/-! ### compaction deletes -/
+
+def Act.avoids (k0 : Bytes) : Act → Prop
+  | .del ik _ => ik ≠ k0
+  | .delcur ik _ _ => ik ≠ k0
+  | _ => True
+
+theorem runDelete_keeps_get {mask : Nat → DelOutcome} {st : CompState} {a : Act} {k0 v : Bytes}
+    (ha : a.avoids k0) (hg : st.store.get k0 = some v) : (runDelete mask st a).store.get k0 = some v := by
+  cases a with
+  | emit k v r => exact hg
+  | panic => exact hg
+  | del ik raw =>
+    have ha : ik ≠ k0 := ha
+    simp only [runDelete]
+    repeat' split
+    all_goals first | exact hg | exact Store.get_erase_of_some _ _ _ _ (Ne.symm ha) hg
+  | delcur ik w raw =>
+    have ha : ik ≠ k0 := ha
+    simp only [runDelete]
+    repeat' split
+    all_goals first | exact hg | exact Store.get_erase_of_some _ _ _ _ (Ne.symm ha) hg
+
+theorem runDeletes_keeps_get {mask : Nat → DelOutcome} {k0 v : Bytes} (acts : List Act)
+    (ha : ∀ a ∈ acts, a.avoids k0) (st : CompState) (hg : st.store.get k0 = some v) :
+    (runDeletes mask st acts).store.get k0 = some v := by
+  unfold runDeletes
+  induction acts generalizing st with
+  | nil => exact hg
+  | cons a acts ih =>
+    simp only [List.foldl_cons]
+    exact ih (fun x hx => ha x (List.mem_cons_of_mem _ hx)) _
+      (runDelete_keeps_get (ha a (List.mem_cons_self ..)) hg)
+
+theorem expireStep_avoids {c : WCfg} {k0 : Bytes} (r : Rec) (hr : r.ik ≠ k0) (acts : List Act)
+    (h : expireStep c r = some acts) : ∀ a ∈ acts, a.avoids k0 := by
+  unfold expireStep at h
+  repeat' split at h
+  all_goals cases h <;> simp [Act.avoids, hr]
+
+theorem workerStep_avoids {c : WCfg} {k0 : Bytes} (hk : ∀ k rv, encode k rv ≠ k0) (p : Prev) (r : Rec)
+    (hr : r.ik ≠ k0) : ∀ a ∈ (workerStep c p r).1, a.avoids k0 := by
+  unfold workerStep
+  cases he : expireStep c r with
+  | some acts => exact expireStep_avoids r hr acts he
+  | none =>
+    simp only [emitPrev]
+    repeat' split
+    all_goals simp [Act.avoids, hr, hk]
+
+theorem workerLoop_avoids {c : WCfg} {k0 : Bytes} (hk : ∀ k rv, encode k rv ≠ k0) (recs : List Rec)
+    (hr : ∀ r ∈ recs, r.ik ≠ k0) (p : Prev) : ∀ a ∈ workerLoop c p recs, a.avoids k0 := by
+  induction recs generalizing p with
+  | nil => simp only [workerLoop, emitPrev]; split <;> simp [Act.avoids]
+  | cons r rs ih =>
+    intro a ha
+    simp only [workerLoop, List.mem_append] at ha
+    rcases ha with ha | ha
+    · exact workerStep_avoids hk p r (hr r (List.mem_cons_self ..)) a ha
+    · exact ih (fun x hx => hr x (List.mem_cons_of_mem _ hx)) _ a ha
+
+theorem decodeRecs_decoded (l : List (Bytes × Bytes)) (recs : List Rec) (h : decodeRecs l = some recs) :
+    ∀ r ∈ recs, decode r.ik = .ok r.key r.rev := by
+  induction l generalizing recs with
+  | nil => simp only [decodeRecs, Option.some.injEq] at h; subst h; simp
+  | cons x rest ih =>
+    obtain ⟨ik, v⟩ := x
+    simp only [decodeRecs] at h
+    cases hd : decode ik with
+    | panic => simp [hd] at h
+    | err => simp only [hd] at h; exact ih recs h
+    | ok k r =>
+      simp only [hd, Option.map_eq_some_iff] at h
+      obtain ⟨l', hl', rfl⟩ := h
+      intro x hx
+      rcases List.mem_cons.1 hx with rfl | hx
+      · exact hd
+      · exact ih l' hl' x hx
+
+theorem workerActs_avoids (c : Cfg) (w : WCfg) (l : List (Bytes × Bytes)) (recs : List Rec)
+    (h : decodeRecs l = some recs) : ∀ a ∈ workerActs w recs, a.avoids (compactKeyOf c) :=
+  workerLoop_avoids (fun k rv => compactKey_ne_encode c k rv) recs
+    (fun r hr => ne_compactKey_of_decode (decodeRecs_decoded l recs h r hr)) _
+
+theorem take8_be8 (r : Nat) : (be8 r).take 8 = be8 r := by
+  apply List.take_of_length_le; simp [be8, be64]
+
+theorem floorOf_put (c : Cfg) (st : Store) (r : Nat) (hr : r < 2 ^ 64) :
+    floorOf c (st.put (compactKeyOf c) (be8 r)) = r := by
+  simp only [floorOf, Store.get_put_self_any, take8_be8]
+  exact fromBE_be64 hr
+
+theorem floorOf_of_get {c : Cfg} {st : Store} {v : Bytes} (h : st.get (compactKeyOf c) = some v) :
+    floorOf c st = fromBE (v.take 8) := by simp [floorOf, h]
+
+theorem foldl_invariant {α β : Type _} (P : α → Prop) (f : α → β → α) (hf : ∀ a b, P a → P (f a b))
+    (l : List β) (a : α) (ha : P a) : P (l.foldl f a) := by
+  induction l generalizing a with
+  | nil => exact ha
+  | cons x xs ih => exact ih _ (hf a x ha)
+
+theorem compactRange_floor (c : Cfg) (s : BState) (a b : Bytes) (rev : Nat) (mask : Nat → DelOutcome)
+    (calls : Nat) (hrev : rev < 2 ^ 64) :
+    floorOf c (compactRange c s a b rev mask calls).1.store = max (floorOf c s.store) rev := by
+  -- the record after `checkCompactRace(compact = true)`
+  obtain ⟨store, hstore, v, hv, hfl⟩ : ∃ store : Store,
+      store = (if s.store.get (compactKeyOf c) == none || floorOf c s.store < rev
+        then s.store.put (compactKeyOf c) (be8 rev) else s.store) ∧
+      ∃ v, store.get (compactKeyOf c) = some v ∧ fromBE (v.take 8) = max (floorOf c s.store) rev := by
+    refine ⟨_, rfl, ?_⟩
+    split
+    · rename_i h
+      refine ⟨be8 rev, Store.get_put_self_any _ _ _, ?_⟩
+      rw [take8_be8, be8, fromBE_be64 hrev]
+      simp only [Bool.or_eq_true, beq_iff_eq, decide_eq_true_eq] at h
+      rcases h with h | h
+      · simp [floorOf, h]
+      · omega
+    · rename_i h
+      simp only [Bool.or_eq_true, beq_iff_eq, decide_eq_true_eq, not_or] at h
+      cases hg : s.store.get (compactKeyOf c) with
+      | none => exact absurd hg h.1
+      | some v =>
+        refine ⟨v, rfl, ?_⟩
+        rw [← floorOf_of_get hg]; omega
+  unfold compactRange
+  simp only [← hstore]
+  cases scanPartitions c a b with
+  | none => simp only [floorOf_of_get hv, hfl]
+  | some parts =>
+    simp only []
+    rw [floorOf_of_get (v := v), hfl]
+    apply foldl_invariant (fun acc : CompState × Bool => acc.1.store.get (compactKeyOf c) = some v)
+    · intro acc p hacc
+      cases hd : decodeRecs (iterate c.q store p.1 p.2 0) with
+      | none => exact hacc
+      | some recs =>
+        exact runDeletes_keeps_get _ (workerActs_avoids c _ _ recs hd) _ hacc
+    · exact hv
+
+/-- the revision `Backend.Compact` actually compacts at -/
+def clampRev (s : BState) (rev : Nat) : Nat :=
+  let r := if rev == 0 || rev > s.committed then s.committed else rev
+  match s.retryQ.head? with
+  | some w => min (w.rev - 1) r
+  | none => r
+
+theorem clampRev_le (s : BState) (rev : Nat) : clampRev s rev ≤ s.committed := by
+  unfold clampRev
+  have : (if rev == 0 || rev > s.committed then s.committed else rev) ≤ s.committed := by
+    split
+    · exact Nat.le_refl _
+    · rename_i h; simp at h; omega
+  simp only []
+  split <;> omega
+
+/-- `setCompactRecord` -/
+def setRecord (c : Cfg) (st : Store) (r : Nat) : Store :=
+  match st.get (compactKeyOf c) with
+  | some v => if v.length > 0 && fromBE (v.take 8) > r then st else st.put (compactKeyOf c) (be8 r)
+  | none => st.put (compactKeyOf c) (be8 r)
+
+/-- the loop over the border pairs -/
+def compactFold (c : Cfg) (s : BState) (r : Nat) (mask : Nat → DelOutcome) : BState × Nat × Bool :=
+  (pairs (compactBorders c)).foldl (fun (acc : BState × Nat × Bool) b =>
+      let (s', calls, p) := compactRange c acc.1 b.1 b.2 r mask acc.2.1
+      (s', calls, acc.2.2 || p)) (s, 0, false)
+
+theorem doCompact_eq (c : Cfg) (s : BState) (rev : Nat) (mask : Nat → DelOutcome) :
+    doCompact c s rev mask =
+      (if (compactFold c { s with store := setRecord c s.store (clampRev s rev) } (clampRev s rev) mask).2.2
+        then .panic else .ok (clampRev s rev),
+       (compactFold c { s with store := setRecord c s.store (clampRev s rev) } (clampRev s rev) mask).1) := rfl
+
+theorem doCompact_fst (c : Cfg) (s : BState) (rev : Nat) (mask : Nat → DelOutcome) (R : Nat)
+    (h : (doCompact c s rev mask).1 = .ok R) : R = clampRev s rev := by
+  rw [doCompact_eq] at h
+  simp only [] at h
+  split at h
+  · cases h
+  · injection h with h; exact h.symm
+
+theorem setRecord_floor (c : Cfg) (st : Store) (r : Nat) (hr : r < 2 ^ 64) :
+    floorOf c (setRecord c st r) = max (floorOf c st) r := by
+  unfold setRecord
+  cases hg : st.get (compactKeyOf c) with
+  | none =>
+    simp only [floorOf_put c st r hr]
+    simp [floorOf, hg]
+  | some v =>
+    simp only []
+    split
+    · rename_i h
+      simp only [Bool.and_eq_true, decide_eq_true_eq] at h
+      rw [floorOf_of_get hg]; omega
+    · rename_i h
+      simp only [Bool.and_eq_true, decide_eq_true_eq, not_and] at h
+      rw [floorOf_put c st r hr, floorOf_of_get hg]
+      by_cases hl : v.length > 0
+      · have := h hl; omega
+      · have : v = [] := List.length_eq_zero_iff.mp (by omega)
+        subst this
+        simp [fromBE]
+
+theorem compactFold_floor (c : Cfg) (s : BState) (r : Nat) (mask : Nat → DelOutcome) (hr : r < 2 ^ 64)
+    (hs : r ≤ floorOf c s.store) :
+    floorOf c (compactFold c s r mask).1.store = floorOf c s.store := by
+  unfold compactFold
+  apply foldl_invariant (fun acc : BState × Nat × Bool => floorOf c acc.1.store = floorOf c s.store)
+  · intro acc b hacc
+    simp only [compactRange_floor c acc.1 b.1 b.2 r mask acc.2.1 hr, hacc]
+    omega
+  · rfl
+
+theorem doCompact_floor (c : Cfg) (s : BState) (rev : Nat) (mask : Nat → DelOutcome)
+    (hrev : clampRev s rev < 2 ^ 64) :
+    floorOf c (doCompact c s rev mask).2.store = max (floorOf c s.store) (clampRev s rev) := by
+  rw [doCompact_eq]
+  simp only []
+  rw [compactFold_floor c _ _ mask hrev]
+  · exact setRecord_floor c s.store _ hrev
+  · simp only [setRecord_floor c s.store _ hrev]; omega
 end KB
+
